@@ -137,7 +137,7 @@ def run(chk):
     b = core.standard_build(chk)
     model = core.Model() if b.modelrun_ok else None
     full = chk.tier == 'thorough' or bool(b.drift) or not b.proof_ok
-    n = 400 if full else 50
+    n = core.budget(chk, full, 60, 400)
     chk.rule = ('generated documents (every second one in the claimed core: single notes without explicit accidental, no chords) x '
                 '5 intervals (3 random of the 40, unison, octave) x a random direction; result and source exported before / after; '
                 'non-trivial = distinct (text, interval, direction)')
